@@ -49,6 +49,47 @@ class _SuppressAsTry(ast.NodeTransformer):
         return ast.fix_missing_locations(t)
 
 
+class _AllAnyOfDisplay(ast.NodeTransformer):
+    """Front-end normalisation: all((a, b, c)) / any([a, b]) over a display
+    is bool(a and b and c) / bool(a or b).  (The display evaluates every
+    operand, the boolean operator only as far as needed: the same truth value
+    whenever the operands evaluate at all.)"""
+
+    def visit_Call(self, node):
+        self.generic_visit(node)
+        if isinstance(node.func, ast.Name) and node.func.id in (
+                'all', 'any') and len(node.args) == 1 and \
+                not node.keywords and isinstance(
+                    node.args[0], (ast.Tuple, ast.List)) and not any(
+                        isinstance(x, ast.Starred)
+                        for x in node.args[0].elts):
+            elts = node.args[0].elts
+            if not elts:
+                val = ast.Constant(value=node.func.id == 'all')
+            elif len(elts) == 1:
+                val = elts[0]
+            else:
+                val = ast.BoolOp(op=ast.And() if node.func.id == 'all'
+                                 else ast.Or(), values=list(elts))
+            return ast.copy_location(ast.Call(
+                func=ast.Name(id='bool', ctx=ast.Load()), args=[val],
+                keywords=[]), node)
+        return node
+
+    def visit_JoinedStr(self, node):
+        # f'{x}' with nothing around it and no conversion / format spec is
+        # format(x, ''), which is str(x) for the built-in types
+        self.generic_visit(node)
+        if len(node.values) == 1 and isinstance(
+                node.values[0], ast.FormattedValue) and \
+                node.values[0].conversion == -1 and \
+                node.values[0].format_spec is None:
+            return ast.copy_location(ast.Call(
+                func=ast.Name(id='str', ctx=ast.Load()),
+                args=[node.values[0].value], keywords=[]), node)
+        return node
+
+
 class _MatchAsIf(ast.NodeTransformer):
     """Front-end normalisation: a `match` over a plain name / attribute
     whose cases are literals, `|` of literals, `None` / `True` / `False`,
@@ -218,8 +259,9 @@ class Module:
         self.path = path
         self.source = source
         self.sha256 = hashlib.sha256(source.encode()).hexdigest()
-        self.tree = _AppendLoopAsComp().visit(_MatchAsIf().visit(
-            _SuppressAsTry().visit(ast.parse(source, filename=path))))
+        self.tree = ast.fix_missing_locations(_AllAnyOfDisplay().visit(
+            _AppendLoopAsComp().visit(_MatchAsIf().visit(
+                _SuppressAsTry().visit(ast.parse(source, filename=path))))))
         self.imports = {}     # local name -> qualified target
         self.aliases = {}     # module-level NAME = dotted expr
         self.consts = {}      # module-level NAME = constant ast node
